@@ -2,7 +2,10 @@ package main
 
 import (
 	"fmt"
+	"go/token"
 	"regexp"
+
+	"golang.org/x/tools/go/ssa"
 )
 
 func init() { registry["C04"] = checkC04 }
@@ -99,6 +102,51 @@ func checkC04(c *Ctx) {
 		w := "(*internal/sha3.State).Write"
 		if m.nist {
 			c.transcriptRule(p, "C04.domsep", "key generation absorbs seed ‖ k ‖ l", kg, nil, w, 1, []string{"param#0", fmt.Sprintf("[%d %d]", m.k, m.l), "…"})
+		}
+	}
+}
+
+// the scalar rejection sampler of the matrix (used when the four-way sampler is not available) keeps a
+// 23-bit candidate exactly when it is below q: q itself is rejected, q-1 is kept
+func init() {
+	prev := registry["C04"]
+	registry["C04"] = func(c *Ctx) {
+		prev(c)
+		p := c.Prog("amd64")
+		if p == nil {
+			return
+		}
+		c.Clauses = append(c.Clauses, "C04.sample: the scalar uniform sampler stores a 23-bit candidate equal to q-1 and does not store one equal to q (boundary of the rejection test, decided by constant propagation)")
+		for _, pk := range []string{"sign/dilithium/mode2", "sign/dilithium/mode3", "sign/dilithium/mode5", "sign/mldsa/mldsa44", "sign/mldsa/mldsa65", "sign/mldsa/mldsa87"} {
+			f := p.Func(pk+"/internal", "", "PolyDeriveUniform")
+			// the sampling loop is a closure over p, i and buf
+			outer := f
+			if f != nil && len(f.AnonFuncs) == 1 {
+				f = f.AnonFuncs[0]
+			}
+			cand := func(v int64) []ValAssume {
+				return []ValAssume{{Name: "candidate (23 bits)", Val: latInt(v), Match: func(x ssa.Value, in *ssa.Function) bool {
+					b, ok := x.(*ssa.BinOp)
+					if !ok || in != f || b.Op != token.AND {
+						return false
+					}
+					k, ok := b.Y.(*ssa.Const)
+					return ok && k.Value != nil && k.Value.ExactString() == "8388607"
+				}}}
+			}
+			isCoeff := func(st *ssa.Store) bool {
+				ia, ok := st.Addr.(*ssa.IndexAddr)
+				if !ok || f == nil {
+					return false
+				}
+				base, _ := memRoot(ia.X)
+				if fv, ok := base.(*ssa.FreeVar); ok {
+					return outer != nil && len(outer.Params) > 0 && fv.Name() == outer.Params[0].Name()
+				}
+				return outer != nil && len(outer.Params) > 0 && base == ssa.Value(outer.Params[0])
+			}
+			c.storeReachUnder(p, "C04.sample", "a candidate equal to q is rejected", f, cand(8380417), "store of a coefficient", isCoeff, false)
+			c.storeReachUnder(p, "C04.sample", "a candidate equal to q-1 is kept", f, cand(8380416), "store of a coefficient", isCoeff, true)
 		}
 	}
 }
